@@ -282,7 +282,13 @@ type Config struct {
 
 // Run executes body as thread 0 under a fresh scheduler and returns it after the
 // execution ended and all managed goroutines have gone.
+// OnRun, when set, is called at the start of every controlled execution (liveness beat for the framework's stall watchdog).
+var OnRun func()
+
 func Run(cfg Config, body func()) *Sched {
+	if OnRun != nil {
+		OnRun()
+	}
 	s := &Sched{Prefix: cfg.Prefix, Bound: cfg.Bound, MaxSteps: cfg.MaxSteps, cache: cfg.Cache,
 		finished: make(chan struct{}), objs: map[any]*Obj{}, TraceOn: cfg.Trace, Vals: map[string]any{},
 		Now: 1_700_000_000_000_000_000, EnvDefault: cfg.EnvBudget, EnvBudgets: cfg.EnvBudgets, NoEnv: cfg.NoEnv, Timed: cfg.Timed}
